@@ -2,7 +2,7 @@
 from .. import common, es, trees
 
 LEVEL = "proof"
-EXTRA_LEAN_MODULES = ["Luqum.Props.GenNesting"]   # CheckNestedFields translated from the source (tools/pysym.py)
+EXTRA_LEAN_MODULES = ["Luqum.Props.GenNesting", "Luqum.Props.GenEs"]   # CheckNestedFields translated from the source (tools/pysym.py)
 RULE = ("random index schemas (nested / object containers up to depth 3, sub fields) spelled as builder options in "
         "several equivalent ways x trees of supported constructs addressing existing, container and unknown fields "
         "in dotted and nested-group spelling, with AND/OR/implicit mixes under every wrapper, both default "
